@@ -250,15 +250,21 @@ theorem vsh_selection (c l m lh mh : Int) (hc : c = 0 ∨ c = 1 ∨ c = 2)
       · exact Or.inr h.2
     simp [h']
 
-theorem denoms (l : Int) (hl : 1 ≤ l) :
+/-- the denominators `2l+1`, `2l+3`, `2l−1` never vanish for an integer `l` -/
+theorem denoms (l : Int) :
     (2 * (l : ℚ) + 1 ≠ 0) ∧ (2 * (l : ℚ) + 3 ≠ 0) ∧ (2 * (l : ℚ) - 1 ≠ 0) := by
-  have : (1 : ℚ) ≤ (l : ℚ) := by exact_mod_cast hl
-  refine ⟨?_, ?_, ?_⟩ <;> intro h <;> linarith
+  have h1 : (2 * l + 1 : Int) ≠ 0 := by omega
+  have h2 : (2 * l + 3 : Int) ≠ 0 := by omega
+  have h3 : (2 * l - 1 : Int) ≠ 0 := by omega
+  refine ⟨?_, ?_, ?_⟩
+  · exact_mod_cast h1
+  · exact_mod_cast h2
+  · exact_mod_cast h3
 
 /-- **vshY_norm**: `Σ |c|² = 1` over the three components and all `(l̂, m̂)` of the loop, as a
-    rational identity in `l, m`, for every `l ≥ 1` (and every `m`) -/
-theorem vshY_norm (l m : Int) (hl : 1 ≤ l) : vshNormSq vshY l m = 1 := by
-  obtain ⟨h1, h3, hm⟩ := denoms l hl
+    rational identity in `l, m`, for every integer `l` — `l = 0` included — and every `m` -/
+theorem vshY_norm (l m : Int) : vshNormSq vshY l m = 1 := by
+  obtain ⟨h1, h3, hm⟩ := denoms l
   unfold vshNormSq
   rw [vshIndex_eq]
   simp only [List.map, rsum, List.foldr, coefOf, Coef.normSq, Coef.zero,
@@ -269,22 +275,28 @@ theorem vshY_norm (l m : Int) (hl : 1 ≤ l) : vshNormSq vshY l m = 1 := by
   ring
 
 /-- **vshPsi_norm**: `Σ |c|² = l(l+1)` -/
-theorem vshPsi_norm (l m : Int) (hl : 1 ≤ l) : vshNormSq vshPsi l m = (l : ℚ) * ((l : ℚ) + 1) := by
-  obtain ⟨h1, h3, hm⟩ := denoms l hl
+theorem vshPsi_norm (l m : Int) : vshNormSq vshPsi l m = (l : ℚ) * ((l : ℚ) + 1) := by
+  obtain ⟨h1, h3, hm⟩ := denoms l
   unfold vshNormSq
   rw [vshIndex_eq]
   simp only [List.map, rsum, List.foldr, coefOf, Coef.normSq, Coef.zero,
     vshPsi_0_dn_m, vshPsi_0_dn_z, vshPsi_0_dn_p, vshPsi_0_up_m, vshPsi_0_up_z, vshPsi_0_up_p,
     vshPsi_1_dn_m, vshPsi_1_dn_z, vshPsi_1_dn_p, vshPsi_1_up_m, vshPsi_1_up_z, vshPsi_1_up_p,
     vshPsi_2_dn_m, vshPsi_2_dn_z, vshPsi_2_dn_p, vshPsi_2_up_m, vshPsi_2_up_z, vshPsi_2_up_p]
-  have hm' : (-1 + (l : ℚ) * 2) ≠ 0 := by intro h; apply hm; linarith
-  have hm'' : ((l : ℚ) * 2 - 1) ≠ 0 := by intro h; apply hm; linarith
+  -- clear the three denominators by hand: a = 2l+1, b = 2l+3, c = 2l−1
+  generalize ha : (2 * (l : ℚ) + 1) = a at h1 ⊢
+  generalize hb : (2 * (l : ℚ) + 3) = b at h3 ⊢
+  generalize hc : (2 * (l : ℚ) - 1) = c at hm ⊢
+  have hb' : b = a + 2 := by rw [← ha, ← hb]; ring
+  have hc' : c = a - 2 := by rw [← ha, ← hc]; ring
+  have hl' : (l : ℚ) = (a - 1) / 2 := by rw [← ha]; ring
   field_simp
-  ring_nf
+  rw [hl', hb', hc']
+  ring
 
 /-- **vshY_Psi_orthogonal**: `Σ conj(c_Y)·c_Ψ = 0` (real and imaginary part) -/
-theorem vshY_Psi_orthogonal (l m : Int) (hl : 1 ≤ l) : vshInner l m = (0, 0) := by
-  obtain ⟨h1, h3, hm⟩ := denoms l hl
+theorem vshY_Psi_orthogonal (l m : Int) : vshInner l m = (0, 0) := by
+  obtain ⟨h1, h3, hm⟩ := denoms l
   unfold vshInner
   rw [vshIndex_eq]
   simp only [List.map, rsum, List.foldr, coefOf, Coef.zero, psiRootFactor,
@@ -302,11 +314,11 @@ theorem vshY_Psi_orthogonal (l m : Int) (hl : 1 ≤ l) : vshInner l m = (0, 0) :
 
 /-- the radicand of every Ψ coefficient is `k²` times the radicand of the Y coefficient at the same
     position, `k = psiRootFactor ≥ 0`: this is what makes each product `conj(c_Y)·c_Ψ` rational -/
-theorem vsh_radicands (l m : Int) (hl : 1 ≤ l) : ∀ p ∈ vshIndex l m,
+theorem vsh_radicands (l m : Int) (hl : 0 ≤ l) : ∀ p ∈ vshIndex l m,
     (coefOf (vshPsi p.1 l m p.2.1 p.2.2)).q
       = psiRootFactor p.1 l p.2.1 * psiRootFactor p.1 l p.2.1 * (coefOf (vshY p.1 l m p.2.1 p.2.2)).q ∧
     0 ≤ psiRootFactor p.1 l p.2.1 := by
-  have hl' : (1 : ℚ) ≤ (l : ℚ) := by exact_mod_cast hl
+  have hl' : (0 : ℚ) ≤ (l : ℚ) := by exact_mod_cast hl
   have e1 : ¬ (l - 1 = l + 1) := by omega
   intro p hp
   rw [vshIndex_eq] at hp
@@ -323,5 +335,27 @@ theorem vsh_radicands (l m : Int) (hl : 1 ≤ l) : ∀ p ∈ vshIndex l m,
     constructor <;> first | (ring_nf; done) | linarith
 
 example : vshNormSq vshY 3 (-2) = 1 ∧ vshNormSq vshPsi 3 (-2) = 12 ∧ vshInner 3 (-2) = (0, 0) := by decide +kernel
+
+/-- the summation loop of `Vector_Spherical_Harmonics_Y/Psi` skips the positions with `|m̂| > l̂`
+    (where `Y_{l̂,m̂}` does not exist); for admissible orders `|m| ≤ l`, `l ≥ 0`, these positions are
+    all at `l̂ = l − 1`, where the lower-degree radicands vanish at `m = ±l`, `±(l−1)` -/
+def skippedZero (l m : Int) : Bool :=
+  (vshIndex l m).all fun (c, lh, mh) =>
+    decide (mh.natAbs ≤ lh) || (decide ((coefOf (vshY c l m lh mh)).normSq = 0) && decide ((coefOf (vshPsi c l m lh mh)).normSq = 0))
+
+/-- **l = 0** (inside the property's quantifier): the three `l̂ = −1` positions are skipped and carry
+    zero coefficients, so the loop over `l̂ = 1` alone has `Σ|c_Y|² = 1` and `Σ|c_Ψ|² = 0`:
+    `Y_{00}`-vector `= r̂/√(4π)`, `Ψ_{00} = 0` -/
+theorem vsh_l0 :
+    skippedZero 0 0 = true ∧
+    rsum (((vshIndex 0 0).filter fun p => p.2.1 = 1).map fun (c, lh, mh) => (coefOf (vshY c 0 0 lh mh)).normSq) = 1 ∧
+    rsum (((vshIndex 0 0).filter fun p => p.2.1 = 1).map fun (c, lh, mh) => (coefOf (vshPsi c 0 0 lh mh)).normSq) = 0 := by
+  decide +kernel
+
+/-- the skipped positions carry zero coefficients for every `(l, m)`, `l ≤ 12`, `|m| ≤ l`
+    (kernel evaluation over the 169 pairs of the property's quantifier) -/
+theorem vsh_skipped_zero_le12 :
+    ((List.range 13).all fun l => (List.range (2 * l + 1)).all fun k => skippedZero (l : Int) ((k : Int) - l)) = true := by
+  decide +kernel
 
 end Lp.C17
